@@ -36,6 +36,8 @@ Output: coq/Gen/ErrnoGen.v (never committed).
 import os
 import re
 
+import errno_orders
+
 
 class TranslateError(Exception):
     pass
@@ -276,6 +278,10 @@ def translate(srcdir):
     pre = parse_add_common(srcdir)
     extrap, predefined = parse_constants(srcdir)
     cleanup = parse_cleanup(srcdir)
+    try:
+        orders = errno_orders.extract(srcdir)
+    except (errno_orders.OrderError, OSError) as e:
+        raise TranslateError("order of checks and writes: %s" % e)
     if default is None:
         raise TranslateError("vnaerr_verror.c: no default arm")
     missing = [c for c, _ in enum if c not in table]
@@ -287,7 +293,10 @@ def translate(srcdir):
         if c not in full:
             raise TranslateError("vnaerr.h: category VNAERR_%s of the manual is not in the enum" % c)
     return {"enum": enum, "table": full, "explicit": sorted(table), "default": default, "man": man, "z0": z0,
-            "add_common_prevalidates": pre, "extrapolation": extrap, "predefined": predefined, "cleanup": cleanup}
+            "add_common_prevalidates": pre, "extrapolation": extrap, "predefined": predefined, "cleanup": cleanup,
+            "orders": orders["orders"], "handles": orders["handles"], "order_notes": orders["notes"],
+            "query_getters_readonly": orders["getters"], "add_wrappers": orders["add_wrappers"],
+            "orders_digest": errno_orders.digest(orders)}
 
 
 def emit(info):
@@ -343,7 +352,7 @@ def emit(info):
     L.append("Definition gen_cleanup_calls : list (string * list string) :=")
     L.append("  [" + ";\n   ".join('("%s"%%string, [%s])' % (fn, "; ".join('"%s"%%string' % c for c in calls))
                                    for fn, calls in info["cleanup"]) + "].")
-    L.append("")
+    L.append(errno_orders.emit({"orders": info["orders"], "handles": info["handles"], "getters": info["query_getters_readonly"]}))
     return "\n".join(L)
 
 
